@@ -984,7 +984,11 @@ func (fx *FnExec) mapMods(t types.Type, ms *modSet) {
 	d, v, ds, vs := fx.mapHeapNames(mt)
 	ms.heaps[d] = ds
 	ms.heaps[v] = vs
+	mapValTypes[v] = mt.Elem()
 }
+
+// mapValTypes: Go element type of the map-value heap components (for the reference bound at loop heads)
+var mapValTypes = map[string]types.Type{}
 
 // ---------------------------------------------------------------------------
 // main loop
@@ -1272,6 +1276,35 @@ func (fx *FnExec) loopHead(li *loopInfo, st *State) {
 			}
 		}
 		st.heap[h] = nv
+	}
+	// references stored in a havoced map exist: they lie below the allocation counter at the loop head
+	// (so they cannot be confused with objects allocated by the coming iteration)
+	if !ms.opaque {
+		curAlloc := fx.heapGet(st, "alloc", SInt)
+		for _, h := range hs {
+			et, ok := mapValTypes[h]
+			if !ok || !strings.HasPrefix(h, "Mv_") {
+				continue
+			}
+			nv, ok := st.heap[h]
+			if !ok {
+				continue
+			}
+			var ref func(v *Term) *Term
+			switch et.Underlying().(type) {
+			case *types.Pointer, *types.Map:
+				ref = func(v *Term) *Term { return v }
+			case *types.Interface:
+				ref = func(v *Term) *Term { return IfcPtr(v) }
+			case *types.Slice:
+				ref = func(v *Term) *Term { return SlcBase(v) }
+			default:
+				continue
+			}
+			m, k := Var("m!w", SInt), Var("k!w", nv.S.elemSort().keySort())
+			sel := App("select", nv.S.elemSort().elemSort(), App("select", nv.S.elemSort(), nv, m), k)
+			fx.c.Assume(Implies(st.guard, Forall([]*Term{m, k}, Lt(ref(sel), curAlloc), sel)))
+		}
 	}
 	if ms.observer && !ms.opaque {
 		fx.opaqueTargets = nil
